@@ -3,7 +3,7 @@ import re
 
 from cfg import block_dominators, natural_loops
 from cg import op_local, peel
-from core import Finding, RuleResult, view
+from core import Finding, RuleResult, atoms_match, view, wild
 from dataflow import forward_taint, rv_places
 from facts import callee_name
 from prov import Prov, guards, _split_top
@@ -248,7 +248,7 @@ class Classifier:
             idx = ops[1] if len(ops) > 1 else ""
             cont = ops[0] if ops else ""
             desc = "Index(%s)[%s]" % (cont, idx)
-            lens = ("Vec::len(%s)" % cont, "<impl [T]>::len(%s)" % cont)
+            lens = ("len(%s)" % cont,)
             for (rop, x, y) in rels:
                 if x == idx and y in lens and rop == "Lt":
                     auto = ("guarded", "index < len of the same container dominates")
@@ -275,6 +275,9 @@ class Classifier:
             desc = "BoundsCheck(len=%s, index=%s)" % (ops[0], idx)
             if re.match(r"^const:\d+$", idx) and re.match(r"^const:\d+$", ops[0]) and int(idx[6:]) < int(ops[0][6:]):
                 auto = ("const/iter", "constant index into a fixed-size array")
+            for (rop, x, y) in rels:
+                if rop == "Lt" and x == idx and y == ops[0]:
+                    auto = ("guarded", "index < len of the same slice dominates")
         elif kind == "Unwrap":
             callee = s.get("callee", "")
             a = ops[0] if ops else ""
@@ -282,7 +285,7 @@ class Classifier:
             if re.search(r"RwLock::(read|write)\(", a) or "RwLock" in a and ("::read(" in a or "::write(" in a):
                 auto = ("lock-poison", "unwrap of RwLock::read/write: panics only after an earlier panic under the write lock")
         elif kind.startswith("Panic:"):
-            desc = "%s[%s]" % (kind, "; ".join(a for a in norm_atoms(atoms) if not re.search(r"Try::branch\(.*\) is #0$", a))[-400:])
+            desc = "%s[%s]" % (kind, "; ".join(a for a in norm_atoms(atoms))[-1500:])
         return desc, atoms, auto
 
     def audited(self, f, kind, desc, atoms):
@@ -382,7 +385,7 @@ def loop_certificates(ctx, f, header, body):
         if c.name.split("::")[-1] == "push" and c.term["args"]:
             cont = pr.operand(c.term["args"][0])
             atoms = g.atoms_at(("t", c.bb))
-            if any(re.match(r"^\(Lt\(Vec::len\(%s\)," % re.escape(cont), a) for a in atoms) and every_cycle(lambda x: x.name.split("::")[-1] == "push" and pr.operand(x.term["args"][0]) == cont):
+            if any(re.match(r"^\(Lt\(len\(%s\)," % re.escape(cont), a) for a in atoms) and every_cycle(lambda x: x.name.split("::")[-1] == "push" and pr.operand(x.term["args"][0]) == cont):
                 certs.append("GROW-TO-BOUND(%s)" % cont[-20:])
     # SEEN-SET
     for c in calls:
@@ -510,7 +513,7 @@ def alloc(which):
                 if why is None:
                     for e in tbl.get("audited", []):
                         if re.search(e["function"], p) and re.search(e["size"], key_of(sp)):
-                            miss = [rx for rx in e.get("require", []) if not any(re.search(rx, a) for a in atoms)]
+                            miss = [rx for rx in e.get("require", []) if not atoms_match(rx, atoms)]
                             if miss:
                                 res.fail(Finding(res.rule, key + "/guard-gone", "allocation of %s bytes: the audited bound (%s) needs a guard that no longer dominates it: %s" % (sp[:60], e["reason"], miss[0]), f, c.term["span"]))
                                 why = "x"
@@ -551,7 +554,7 @@ def sink(which):
                     res.fail(Finding(res.rule, key + "/unclassified", "panic-capable site %s is not discharged by any interval, guard, qualifier or audited entry (conditions on the path: %s)" % (desc[:160], "; ".join(a[:70] for a in atoms[:4]) or "none"), f, s["span"]))
                     continue
                 na = norm_atoms(atoms) + atoms
-                miss = [rx for rx in e.get("require", []) if not any(re.search(rx, a) for a in na)]
+                miss = [rx for rx in e.get("require", []) if not atoms_match(rx, na)]
                 cls = e["class"]
                 reason = e["reason"]
                 if which == "read" and e.get("class_read"):
@@ -561,7 +564,7 @@ def sink(which):
                     res.fail(Finding(res.rule, key + "/guard-no-longer-dominates", "%s: the audited discharge (%s) needs a guard matching %s, which no longer dominates the site" % (desc[:120], e["reason"][:120], miss[0]), f, s["span"]))
                     continue
                 if cls.startswith("known-finding"):
-                    fd = Finding(res.rule, "R-SINK/%s/%s/%s/%s" % (cls.split(":")[1], p, s["kind"], key_of(desc)[:110]), "%s: %s" % (desc[:120], e["reason"]), f, s["span"])
+                    fd = Finding(res.rule, "R-SINK/%s/%s/%s%s" % (cls.split(":")[1], p, s["kind"], "" if s["kind"].startswith("Panic") else "/" + key_of(desc)[:110]), "%s: %s" % (desc[:120], e["reason"]), f, s["span"])
                     res.fail(fd)
                     continue
                 classes[cls.split("(")[0]] = classes.get(cls.split("(")[0], 0) + 1
